@@ -255,6 +255,25 @@ def _prim_invert_around(a, b, ga, gb, ri, ins):
     return rt.fin(ok, "inverted ReplaceAroundStep does not restore the document")
 
 
+def _around_reachable(C_, a, b, ri):
+    """Concrete pre-filter for obligation generation only: does ANY gap / insert position let the step apply?"""
+    Cx = ops.payloads(C_) if not hasattr(C_, "ras") else C_
+    if ri >= len(Cx.ras):
+        return False
+    sl, _nat = Cx.ras[ri]
+    for ga in range(a, b + 1):
+        for gb in range(ga, b + 1):
+            if Cx.is_split(ga) or Cx.is_split(gb):
+                continue
+            for ins in range(0, sl.size + 1):
+                try:
+                    if c01_steps.ReplaceAroundStep(a, b, ga, gb, sl, ins, False).apply(Cx.doc).failed is None:
+                        return True
+                except ValueError:
+                    pass
+    return False
+
+
 QUICK = [("list", 1), ("strict", 0)]
 QUICK_LIST_KINDS = ["lift", "wrap", "split", "join", "delete_range", "delete"]
 TWO_QUICK = [("delete", "add_mark"), ("split", "join")]
@@ -289,6 +308,8 @@ def obligations(tier, seed):
         spans = [(k, C_.pm.match[k] + 1) for k, t in enumerate(C_.tok) if t[0] == "open"][: (3 if tier == "quick" else 6)]
         for (o, c) in spans + [(0, C_.size)]:
             for ri in ([0, 1, 2, 5, 9, 10] if tier == "quick" else list(range(13))):
+                if not _around_reachable(C_, o, c, ri):
+                    continue                 # no gap / insert position makes this wrapper apply on [o, c): vacuous partition
                 obs.append({"name": "prim-invert-around/%s#%d/%d-%d/r%d" % (sn, i, o, c, ri), "fn": "ob_prim_invert_around",
                             "P": {"schema": sn, "doc": i, "prim": True, "a": o, "b": c, "ras": [ri]}, "timeout": T, "allow_vacuous": True})
     for (sn, i) in ([("list", 9)] if tier == "quick" else [("list", 9), ("list", 5), ("basic", 1), ("strict", 0), ("table", 0)]):
